@@ -25,7 +25,8 @@ from vp import reactions as R
 PROPERTY = "C06"
 LEVEL = "model_checking"
 RULE = (
-    "all operation sequences of depth <= 3 (thorough 4) ending in formulate() over the"
+    "all operation sequences of depth <= 3 ending in formulate() (thorough: larger alphabet,"
+    " plus depth 4 from the DPD preset) over the"
     " alphabet {set stable ids, scalar mass, couplings, alignment; toggle naming flags;"
     " dynamics.assign; adapter.permutate / register extra topology; formulate} for one"
     " builder and for two builders sharing the reaction (all interleavings of their"
@@ -119,15 +120,17 @@ def bases(key: str) -> list[list]:
     return out
 
 
-def histories(key: str, tier: str, two_builders: bool) -> list[list]:
-    ops = alphabet(key, tier)
-    depth = 3 if tier == "quick" else 4
+def histories(key: str, tier: str, two_builders: bool, deep: bool = False) -> list[list]:
+    # thorough: depth 3 over the extended alphabet everywhere, depth 4 over the quick
+    # alphabet for the DPD-capable reaction (`deep`)
+    ops = alphabet(key, "quick" if deep else tier)
+    depth = 4 if deep else 3
     if two_builders:
         # operations of two builders: every interleaving arises as a sequence over the
         # doubled alphabet; keep the doubled alphabet small
         small = [o for o in ops if o[0] in {"formulate"} or o[:2] in (["set", "stable_final_state_ids"], ["set", "spin_alignment"]) or o[0] == "permutate"]
         ops2 = [[b, *o] for b in (0, 1) for o in small]
-        depth2 = 3 if tier == "quick" else 4
+        depth2 = 3
         out = []
         for d in range(1, depth2):
             for prefix in itertools.product(ops2, repeat=d):
@@ -150,10 +153,14 @@ def cases(tier, seed):
     keys = ["ksp-dpd", "ksp", "omega", "four"] if tier == "quick" else list(REACTIONS)
     for key in keys:
         for base in bases(key):
-            for two in (False, True):
-                if two and key not in {"ksp-dpd", "four"} and tier == "quick":
+            for two in (False, True, "deep"):
+                if two is True and key not in {"ksp-dpd", "four"}:
                     continue
-                hs = histories(key, tier, two)
+                if two == "deep" and not (tier == "thorough" and key == "ksp-dpd" and base):
+                    continue
+                hs = histories(key, tier, two is True, deep=(two == "deep"))
+                if two == "deep":
+                    hs = [h for h in hs if len(h) == 4]
                 for i in range(0, len(hs), CHUNK_SIZE):
                     out.append({"reaction": key, "base": base, "two": two,
                                 "histories": hs[i:i + CHUNK_SIZE], "seed": seed, "tier": tier})
